@@ -5,7 +5,7 @@
    words shorter than 2^31 items) and from read_with_delta / Delta::create on accepted values. *)
 From LibTw2 Require Import Base.Res Model.Varint Model.Packer Model.Snap
   Proofs.SnapBase Proofs.SnapRep Proofs.SnapDelta Proofs.SnapApply Proofs.SnapTotal Proofs.SnapTotal2
-  Proofs.SnapSer Proofs.SnapReg Proofs.SnapObs Proofs.SnapBuilder Proofs.SnapC11 Proofs.SnapAlloc.
+  Proofs.SnapSer Proofs.SnapReg Proofs.SnapObs Proofs.SnapBuilder Proofs.SnapC10 Proofs.SnapC11 Proofs.SnapAlloc.
 From Coq Require Import ZArith List Lia.
 Import ListNotations.
 Open Scope Z_scope.
@@ -52,7 +52,8 @@ Qed.
 
 (* an accepted snapshot can be written and read back to a snapshot that cannot be told apart,
    and every other operation runs on it: enumerate, look up (type ids in their documented
-   range), checksum, recycle + add, diff against any accepted snapshot (K09 aside) *)
+   range), checksum, recycle + add, diff against any accepted snapshot (K09 aside) - and the
+   delta applied gives that snapshot back *)
 Theorem C11_reusable : forall S, snap_accepted S ->
   (exists l bs S' ws, snap_ints (sn_raw S) = Ok l /\ ints_to_bytes l = Ok bs
       /\ snap_read_from_ints l = (Ok S', ws) /\ snap_read_bytes bs = (Ok S', ws)
@@ -66,8 +67,11 @@ Theorem C11_reusable : forall S, snap_accepted S ->
              fine (snd (builder_add b t id data)))
   /\ (forall S2, snap_accepted S2 ->
         (k09 (sn_raw S) (sn_raw S2) = false ->
-           exists d, create_raw (sn_raw S) (sn_raw S2) = Ok d /\ delta_accepted d
-                     /\ fine (fst (snap_read_with_delta S d)))
+           exists d S' ws, create_raw (sn_raw S) (sn_raw S2) = Ok d /\ delta_accepted d
+                     /\ snap_read_with_delta S d = (Ok S', ws)
+                     /\ (forall E, @snap_items E S' = @snap_items E S2)
+                     /\ (forall E t id, @snap_item E S' t id = @snap_item E S2 t id)
+                     /\ crc (sn_raw S') = crc (sn_raw S2))
         /\ (k09 (sn_raw S) (sn_raw S2) = true -> exists s, create_raw (sn_raw S) (sn_raw S2) = Panic s)).
 Proof.
   intros S HS. destruct (proj2 accepted_good S HS) as [G C]. pose proof (sg_raw _ G) as GR.
@@ -83,8 +87,9 @@ Proof.
     intros t id data Ho. apply builder_add_fine; [exact Ho|]. unfold OFFSET_EXTENDED_TYPE_ID. lia.
   - intros S2 HS2. destruct (proj2 accepted_good S2 HS2) as [G2 _].
     destruct (create_fine_or_k09 _ _ GR (sg_raw _ G2)) as [H1 H2]. split; [|exact H2].
-    intros Hk. destruct (H1 Hk) as (d & Ed & D). exists d. split; [exact Ed|]. split; [apply (dacc_create S S2 d HS HS2 Ed)|].
-    apply (wpost_fine _ _ (snap_read_with_delta_good S d G D)).
+    intros Hk. destruct (accepted_after_delta S S2 HS HS2 Hk) as (d & S' & ws & Ed & Er & _ & HL).
+    destruct (like_observables S2 S' HL) as (O1 & O2 & O3). exists d, S', ws.
+    split; [exact Ed|]. split; [apply (dacc_create S S2 d HS HS2 Ed)|]. split; [exact Er|]. split; [exact O1|]. split; [exact O2|exact O3].
 Qed.
 
 (* PARTIAL (allocation clause).  Full statement wanted: work and allocation of each reader are
